@@ -163,4 +163,71 @@ theorem extract_ok_key {schema : List Key} {cfg : List (Path × Leaf)} {vals : L
           rw [if_neg this]
           exact h2
 
+
+/-! ### the environment source -/
+
+theorem replaceDU_cons_ne {b : Nat} (hb : b ≠ 95) (rest : List Nat) :
+    replaceDU (b :: rest) = b :: replaceDU rest :=
+  replaceDU.eq_2 b rest (fun _ h _ => hb h)
+
+theorem replaceDU_no_underscore (l : List Nat) (h : ∀ b ∈ l, b ≠ 95) : replaceDU l = l := by
+  induction l with
+  | nil => simp [replaceDU]
+  | cons b rest ih =>
+    rw [replaceDU_cons_ne (h b (List.mem_cons_self ..)), ih (fun x hx => h x (List.mem_cons_of_mem _ hx))]
+
+theorem lower_ne_underscore {b t : Nat} (h : lower b = t) (ht : t ≠ 95) : b ≠ 95 := by
+  intro e
+  subst e
+  exact ht (by simpa [lower] using h.symm)
+
+/-- A variable whose (trimmed) name is `PX_PROFILE` in any letter case contributes no key. -/
+theorem envKey_profile (name : List Nat) (h : eqUncased (trim name) pxProfileVar = true) :
+    envKey name = none := by
+  unfold envKey
+  simp only []
+  generalize trim name = n at h ⊢
+  have hl : lowerAll n = [112, 120, 95, 112, 114, 111, 102, 105, 108, 101] := by
+    have : lowerAll pxProfileVar = [112, 120, 95, 112, 114, 111, 102, 105, 108, 101] := by decide
+    rw [← this]
+    simpa [eqUncased] using h
+  simp only [lowerAll, List.map_eq_cons_iff, List.map_eq_nil_iff] at hl
+  obtain ⟨b0, r0, rfl, h0, b1, r1, rfl, h1, b2, r2, rfl, h2, b3, r3, rfl, h3, b4, r4, rfl, h4, b5, r5, rfl, h5,
+    b6, r6, rfl, h6, b7, r7, rfl, h7, b8, r8, rfl, h8, b9, r9, rfl, h9, rfl⟩ := hl
+  have hk : replaceDU [b3, b4, b5, b6, b7, b8, b9] = [b3, b4, b5, b6, b7, b8, b9] := by
+    apply replaceDU_no_underscore
+    intro b hb
+    simp only [List.mem_cons, List.mem_nil_iff, or_false] at hb
+    rcases hb with rfl | rfl | rfl | rfl | rfl | rfl | rfl
+    · exact lower_ne_underscore h3 (by decide)
+    · exact lower_ne_underscore h4 (by decide)
+    · exact lower_ne_underscore h5 (by decide)
+    · exact lower_ne_underscore h6 (by decide)
+    · exact lower_ne_underscore h7 (by decide)
+    · exact lower_ne_underscore h8 (by decide)
+    · exact lower_ne_underscore h9 (by decide)
+  have hp : eqUncased [b3, b4, b5, b6, b7, b8, b9] profileKey = true := by
+    have e1 : lowerAll [b3, b4, b5, b6, b7, b8, b9] = [112, 114, 111, 102, 105, 108, 101] := by
+      simp [lowerAll, h3, h4, h5, h6, h7, h8, h9]
+    unfold eqUncased
+    rw [e1]
+    decide
+  simp only [List.drop_succ_cons, List.drop_zero, hk, hp, if_true]
+  split <;> rfl
+
+theorem envFold_filter_profile (vars : List (List Nat × List Nat)) :
+    ∀ d, envFold vars d = envFold (vars.filter (fun v => !eqUncased (trim v.1) pxProfileVar)) d := by
+  induction vars with
+  | nil => intro d; rfl
+  | cons p rest ih =>
+    intro d
+    obtain ⟨n, v⟩ := p
+    by_cases h : eqUncased (trim n) pxProfileVar = true
+    · simp only [List.filter_cons, h, Bool.not_true, Bool.false_eq_true, if_false, envFold, envKey_profile n h]
+      exact ih d
+    · simp only [List.filter_cons, h, Bool.not_false, if_true, envFold]
+      cases envKey n with
+      | none => exact ih d
+      | some k => exact ih _
+
 end Pxv.Config
